@@ -84,6 +84,19 @@ impl Prop for Local {
             }
         }
         steps.push(Step::Purge);
+        // (since the seeded change `C08p`) one case in three delivers one or two operations a second time, through the
+        // other source, at a later point: a duplicate the set has to refuse, and the one way both sources of a replica
+        // come to report the very same newest stamp for a node
+        if src.chance(1, 3) {
+            for _ in 0..1 + src.below(2) {
+                let ops_at: Vec<usize> = steps.iter().enumerate().filter(|(_, s)| matches!(s, Step::Op(..))).map(|(i, _)| i).collect();
+                let j = ops_at[src.below(ops_at.len())];
+                if let Step::Op(op, source) = steps[j].clone() {
+                    let at = j + 1 + src.below(steps.len() - j);
+                    steps.insert(at, Step::Op(op, 1 - source));
+                }
+            }
+        }
         Case { steps }
     }
 
@@ -113,7 +126,8 @@ impl Prop for Local {
          purge_old_deletes at generated points; oracle at each purge: live ids+stamps unchanged, returned list is a \
          subset of the previous tombstones (same stamps), none of them a live id, and exactly those vanished; for every tombstone purged so \
          far and probe stamps <= it from the deleting node (same key and a fresh key): will_apply false, \
-         insert/delete on a clone return false and change nothing -- re-checked after every later step; non-trivial = >=1 tombstone purged"
+         insert/delete on a clone return false and change nothing -- re-checked after every later step; one case in three delivers one or two operations a second time through the other source; \
+         a twin replica that never purges gets the same operations and, until the first operation arrives an hour or more after its stamp, shows the same live ids and stamps; non-trivial = >=1 tombstone purged"
     }
 }
 
@@ -309,10 +323,31 @@ fn run(case: &Case) -> Outcome {
     let mut purge_calls = 0;
     let mut big_partial_purge = false;
     let bulk = case.steps.iter().any(|s| matches!(s, Step::Bulk(..)));
+    // The cluster fact on one replica: a twin that never purges receives the same operations. As long as every operation
+    // has arrived less than the forgiveness period after its stamp (time = the newest stamp that has arrived; no skew in
+    // this part), both must show the same live ids and stamps. The first late arrival ends the comparison for good.
+    let mut twin = Set::default();
+    let mut now = 0u64;
+    let mut timely = true;
     for (i, step) in case.steps.iter().enumerate() {
         match step {
             Step::Op(op, source) => {
+                if now >= op.stamp.secs + 3_600 {
+                    timely = false;
+                }
+                now = now.max(op.stamp.secs);
                 apply(&mut set, *source, op);
+                if !bulk && timely {
+                    apply(&mut twin, *source, op);
+                    let (a, b) = (view(&set).live, view(&twin).live);
+                    ensure!(
+                        a == b,
+                        "purging-replica-differs-from-never-purging",
+                        "step {i}: every operation so far arrived less than an hour after its stamp, yet the purging replica shows {:?} and a replica that never purges shows {:?}",
+                        a,
+                        b
+                    );
+                }
             },
             Step::Bulk(ops, source) => {
                 for op in ops {
